@@ -78,6 +78,7 @@ func main() {
 		fmt.Fprintln(os.Stderr, "usage: harness run|exec|child Cxx ...")
 		os.Exit(2)
 	}
+	debug.SetMaxStack(96 << 20) // runaway recursion in the code under test should fail fast
 	mode, id := os.Args[1], os.Args[2]
 	p := props[id]
 	if p == nil {
@@ -133,8 +134,25 @@ func run(p *Prop, tier string, seed int64, outDir, corpusDir string) {
 	res := &result{Property: p.ID, Tier: tier, Seed: seed, Rule: p.Rule, Histogram: map[string]int{}}
 	seen := map[string]struct{}{}
 	sampleEvery := 1
+	lastOp, _ := os.Create(filepath.Join(outDir, "last-op.txt"))
+	slow := 0
 	handle := func(op string) {
+		if len(res.Violations) >= 25 && slow >= 25 {
+			return // enough failing inputs found, and they are slow (deadline based): stop early
+		}
 		res.Evaluations++
+		opStart := time.Now()
+		defer func() {
+			if time.Since(opStart) > time.Second {
+				slow++
+			}
+		}()
+		// remember the op being executed so that a crash of this process can be attributed to it
+		if lastOp != nil {
+			_, _ = lastOp.Seek(0, 0)
+			_ = lastOp.Truncate(0)
+			_, _ = lastOp.WriteString(op)
+		}
 		o, v := safeExec(p, op)
 		if strings.ContainsAny(o, "\n\r") {
 			o = strings.ReplaceAll(strings.ReplaceAll(o, "\n", "\\n"), "\r", "\\r")
